@@ -8,3 +8,4 @@ import Dasp.Props.C14
 import Dasp.Props.C20
 import Dasp.Props.C04
 import Dasp.Props.C05
+import Dasp.Props.C16
